@@ -173,7 +173,7 @@ ObsFrame(r) == [flags |-> r.flags, decl |-> 1, actual |-> 1, declz |-> r.declz, 
 
 PredClient(status, ct, enc, frames, end, ends) ==
     [status |-> status, ct |-> ct, codec |-> "", enc |-> enc, clen |-> -1, bodylen |-> (IF frames = <<>> /\ end.place = "headers" THEN 0 ELSE 1),
-     extraheads |-> 0, problems |-> <<>>, frames |-> frames, rest |-> 0, end |-> end, ends |-> ends, enddup |-> "",
+     extraheads |-> 0, problems |-> <<>>, dropped |-> <<>>, frames |-> frames, rest |-> 0, end |-> end, ends |-> ends, enddup |-> "",
      after |-> 0, hdrs |-> <<>>, lost |-> <<>>, allow |-> <<>>, flushed |-> <<>>, raw |-> FALSE]
 
 NoRef == [has |-> FALSE]
